@@ -8,7 +8,7 @@
      HWF  = every sub-node is SWF as a tree on its own, and only the root may be a File.
    Definitions only (computable); proofs in TreeEditProofs.v. *)
 From AB Require Import Desc Tree TreeDefs TreeWF.
-From Coq Require Import ZArith List Bool.
+From Coq Require Import ZArith List Bool Ascii.
 Import ListNotations.
 Open Scope list_scope.
 
@@ -330,36 +330,149 @@ Definition create_opt_at (cs : classes_t) (n : node) (f : string) (seps : list t
     end
   end.
 
-(* optional_left_field._remove_node: first = get_next(pivot); token_store.remove(first, current.last_token)
-   optional_right_field._remove_node: last = get_prev(pivot); token_store.remove(current.first_token, last) *)
-Definition remove_opt_at (cs : classes_t) (n : node) (f : string) : option (node * node) :=
+(* models/internal/fields.py _touches (as added by fixes/optional-remove-keeps-separator-when-glued.patch): walk
+   from the child by get_next / get_prev, skip the tokens without text; the nearest token with text shows, at its
+   end 0 / -1, a character other than a blank or a bracket (" \t\r\n{}()"). `l` = the tokens met, nearest first.
+   Texts are the UTF-8 bytes of raw_text: a byte below 128 is a character of its own, and none of the eight
+   characters is part of a longer sequence. *)
+Definition self_delimiting (a : Ascii.ascii) : bool :=
+  existsb (Ascii.eqb a) [" "; "009"; "013"; "010"; "{"; "}"; "("; ")"]%char.
+Fixpoint last_char (s : string) (a : Ascii.ascii) : Ascii.ascii :=
+  match s with String.EmptyString => a | String.String b r => last_char r b end.
+Fixpoint touches (first_char : bool) (l : list tk) : bool :=
+  match l with
+  | [] => false
+  | t :: r =>
+    match k_text t with
+    | String.EmptyString => touches first_char r
+    | String.String a s => negb (self_delimiting (if first_char then a else last_char s a))
+    end
+  end.
+
+(* optional_left_field._remove_node: first = get_next(pivot); the separators stay (first = current.first_token) when
+   the child touches what follows it; token_store.remove(first, current.last_token)
+   optional_right_field._remove_node: last = get_prev(pivot); the separators stay (last = current.last_token) when
+   the child touches what precedes it; token_store.remove(current.first_token, last).
+   `keep` = the outcome of _touches (it looks beyond the node: remove_opt evaluates it on the root's tokens).
+   The node's own token list runs from its first to its last token: separators that stay next to a pivot which has
+   become the node's last / first token are not part of it any more (third component: they stay in the ancestors). *)
+Definition remove_opt_at (cs : classes_t) (keep : bool) (n : node) (f : string) : option (node * node * list tk) :=
   match n with
   | Leaf _ => None
   | Tree c s T kids d =>
     match kid kids f, opt_pivot cs n f with
     | Some (SOpt (Some x)), Some (k, pv) =>
-      match k with
-      | FOptL _ =>
-        match find_off pv T, border cs (depth n) SLast x with
-        | Some a, Some lt =>
-          match find_off lt T with
-          | Some b => Some (x, Tree c s (cut T (S a) (S b)) (set_kid kids f (SOpt None)) d)
-          | None => None
+      match border cs (depth n) SFirst x, border cs (depth n) SLast x with
+      | Some ft, Some lt =>
+        match find_off pv T, find_off ft T, find_off lt T with
+        | Some a, Some xa, Some xb =>
+          let kids' := set_kid kids f (SOpt None) in
+          match k with
+          | FOptL _ =>        (* pivot (a), separators, child (xa .. xb), rest *)
+            if keep && Nat.ltb (S xb) (length T) then Some (x, Tree c s (cut T xa (S xb)) kids' d, [])
+            else Some (x, Tree c s (cut T (S a) (S xb)) kids' d, if keep then slice T (S a) xa else [])
+          | FOptR _ =>        (* rest, child (xa .. xb), separators, pivot (a) *)
+            if keep && Nat.ltb 0 xa then Some (x, Tree c s (cut T xa (S xb)) kids' d, [])
+            else Some (x, Tree c s (cut T xa a) kids' d, if keep then slice T (S xb) a else [])
+          | _ => None
           end
-        | _, _ => None
+        | _, _, _ => None
         end
-      | FOptR _ =>
-        match border cs (depth n) SFirst x, find_off pv T with
-        | Some ft, Some b =>
-          match find_off ft T with
-          | Some a => Some (x, Tree c s (cut T a b) (set_kid kids f (SOpt None)) d)
-          | None => None
-          end
-        | _, _ => None
-        end
-      | _ => None
+      | _, _ => None
       end
     | _, _ => None
+    end
+  end.
+
+(* _touches evaluated in the root's token list (the part of the store the model knows) *)
+Definition opt_touches (cs : classes_t) (root old : node) (f : string) : bool :=
+  match old with
+  | Leaf _ => false
+  | Tree c s T kids d =>
+    match kid kids f, opt_pivot cs old f with
+    | Some (SOpt (Some x)), Some (k, pv) =>
+      match k with
+      | FOptL _ =>
+        match border cs (depth old) SLast x with
+        | Some lt => match find_off lt (node_toks root) with
+                     | Some b => touches true (skipn (S b) (node_toks root))
+                     | None => false
+                     end
+        | None => false
+        end
+      | FOptR _ =>
+        match border cs (depth old) SFirst x with
+        | Some ft => match find_off ft (node_toks root) with
+                     | Some a => touches false (rev (firstn a (node_toks root)))
+                     | None => false
+                     end
+        | None => false
+        end
+      | _ => false
+      end
+    | _, _ => false
+    end
+  end.
+
+(* separators that stay although the owner of the field now ends (begins) at the pivot: they lie next to the pivot
+   in the token list of every ancestor that goes on beyond the pivot (and in the Repeated that holds the path's item,
+   if that goes on beyond the pivot) *)
+Definition at_far_end (k : fkind) (pv : tk) (T : list tk) : bool :=
+  match k with
+  | FOptL _ => match rev T with z :: _ => tk_same z pv | [] => false end
+  | _ => match T with z :: _ => tk_same z pv | [] => false end
+  end.
+Definition ins_next (k : fkind) (pv : tk) (g T : list tk) : option (list tk) :=
+  match find_off pv T with
+  | Some a => Some (match k with FOptL _ => splice T (S a) g | _ => splice T a g end)
+  | None => None
+  end.
+(* the deepest node on the path p that goes on beyond the pivot while its child on the path ends (begins) at the
+   pivot: the path to it, and the step to that child *)
+Fixpoint gap_site (k : fkind) (pv : tk) (n : node) (p : path) : option (path * step) :=
+  match p with
+  | [] => None
+  | st :: r =>
+    if at_far_end k pv (node_toks n) then None
+    else match select n [st] with
+         | Some x =>
+           if at_far_end k pv (node_toks x) then Some ([], st)
+           else match gap_site k pv x r with
+                | Some (q, st') => Some (st :: q, st')
+                | None => None
+                end
+         | None => None
+         end
+  end.
+Definition gap_at (k : fkind) (pv : tk) (g : list tk) (n : node) (st : step) : option node :=
+  match n with
+  | Leaf _ => None
+  | Tree c s T kids d =>
+    match ins_next k pv g T with
+    | Some T' =>
+      match st with
+      | SField _ => Some (Tree c s T' kids d)
+      | SItem f _ =>
+        match kid kids f with
+        | Some (SRep rs rt ph items) =>
+          if at_far_end k pv rt then Some (Tree c s T' kids d)
+          else match ins_next k pv g rt with
+               | Some rt' => Some (Tree c s T' (set_kid kids f (SRep rs rt' ph items)) d)
+               | None => None
+               end
+        | _ => None
+        end
+      end
+    | None => None
+    end
+  end.
+Definition regap (k : fkind) (pv : tk) (g : list tk) (root : node) (p : path) : option node :=
+  match gap_site k pv root p with
+  | None => Some root                       (* the root itself ends at the pivot: the separators lie outside *)
+  | Some (q, st) =>
+    match select root q with
+    | Some a => match gap_at k pv g a st with Some a' => plug root q a' | None => None end
+    | None => None
     end
   end.
 
@@ -372,9 +485,33 @@ Definition create_opt (cs : classes_t) (root : node) (p : path) (f : string) (se
 Definition remove_opt (cs : classes_t) (root : node) (p : path) (f : string) : option (node * node) :=
   match select root p with
   | Some old =>
-    match remove_opt_at cs old f with
-    | Some (x, new) => match plug root p new with Some root' => Some (x, root') | None => None end
+    match remove_opt_at cs (opt_touches cs root old f) old f with
+    | Some (x, new, out) =>
+      match plug root p new with
+      | Some root1 =>
+        match out with
+        | [] => Some (x, root1)
+        | _ =>
+          match opt_pivot cs old f with
+          | Some (k, pv) => match regap k pv out root1 p with Some root' => Some (x, root') | None => None end
+          | None => None
+          end
+        end
+      | None => None
+      end
     | None => None
     end
   | None => None
+  end.
+
+(* the separators that stay next to the pivot but outside the owner of the field (they go to the ancestors: regap);
+   [] in every other case: nothing stays, or what stays lies inside the owner *)
+Definition opt_out (cs : classes_t) (root : node) (p : path) (f : string) : list tk :=
+  match select root p with
+  | Some old =>
+    match remove_opt_at cs (opt_touches cs root old f) old f with
+    | Some (_, _, out) => out
+    | None => []
+    end
+  | None => []
   end.
